@@ -236,7 +236,7 @@ pub fn run(ctx: &Ctx) -> Outcome {
          Path::transform maps every point of every op bit for bit by Transform::transform_point and keeps kinds, order and winding; finish() returns the ops in call order with NonZero winding. Non-trivial: a case with at least one curve or more than three ops; distinct = hash of the parameters.",
     );
     let secs = if ctx.quick() { 30. } else { 600. };
-    run_cases(ctx, &mut out, SubSpec { name: "rect_and_arc", cases: ctx.n(100_000, 8_000_000), exhaustive: false, max_secs: secs }, |i, want, st| {
+    run_cases(ctx, &mut out, SubSpec { name: "rect_and_arc", cases: ctx.n(500_000, 8_000_000), exhaustive: false, max_secs: secs }, |i, want, st| {
         let mut rng = ctx.rng("rect_and_arc", i);
         let mut co = CaseOut::default();
         co.hash = i;
@@ -284,7 +284,7 @@ pub fn run(ctx: &Ctx) -> Outcome {
         }
         co
     });
-    run_cases(ctx, &mut out, SubSpec { name: "finish_and_transform", cases: ctx.n(60_000, 4_000_000), exhaustive: false, max_secs: secs }, |i, want, st| {
+    run_cases(ctx, &mut out, SubSpec { name: "finish_and_transform", cases: ctx.n(300_000, 4_000_000), exhaustive: false, max_secs: secs }, |i, want, st| {
         let mut rng = ctx.rng("finish_and_transform", i);
         let (pb, want_ops) = random_ops(&mut rng);
         let path = pb.finish();
